@@ -9,9 +9,9 @@ from ..common import Result, rng_for
 
 def plan(prop, tier, seed):
     if tier == "quick":
-        n, per, exh = 16, 45, 0
+        n, per, exh = 16, 450, 0
     else:
-        n, per, exh = 64, 1800, 1
+        n, per, exh = 64, 12000, 1
     return [{"prop": prop, "seed": seed, "shard": i, "n_shards": n, "per": per, "exh": exh, "tier": tier} for i in range(n)]
 
 
